@@ -28,10 +28,14 @@ Cands(s, t, inv) ==
   IF inv THEN (IF CanStart(s, t) THEN {Start(s, t)} \cup Acts(Start(s, t), t) ELSE {})
          ELSE {s} \cup Acts(s, t)
 
+\* internal state read by the harness after the step (flush flag, buffered lines, lock holders, ring)
+Peek(y, x) == /\ y.fl = x.fl /\ Len(y.buf) = x.nbuf /\ (y.wr # 0) = x.wr /\ (y.rd > 0) = x.rd
+              /\ y.logs = x.logs /\ y.idx = x.idx /\ y.reg = x.reg /\ (y.rl # 0) = x.rl
+
 ConfSucc(s) ==
   LET t == Line.act.t  o == Line.obs IN
   { IF o.fin THEN Fin(x, t) ELSE x :
-       x \in { y \in Cands(s, t, o.inv) : y.out = o.out /\ y.mon = o.mon /\ (o.fin => CanFin(y, t)) } }
+       x \in { y \in Cands(s, t, o.inv) : y.out = o.out /\ y.mon = o.mon /\ (o.fin => CanFin(y, t)) /\ Peek(y, o.x) } }
 
 Step ==
   /\ l <= Len(Trace)
